@@ -60,6 +60,9 @@ META["rule"] += (
 META["rule"] += (
     " " + 'Added after the fifth round: the Surrogates queries include twin surrogates for two (dimension, delay) pairs at one threshold, the caller putting its embedding back through the setter afterwards.')
 
+META["rule"] += (
+    " " + 'Added later: state changes the object refuses (non-square adjacency, wrong-length node weights, attribute / resistance matrix of another size, edge list with a non-existent node, recurrence rate > 1, window that selects nothing) are steps of the histories: the call must raise and every query must then equal that of a new object of the unchanged model; str(obj) is a query of every subject.')
+
 def pre_import():
     from pvm.mon import shadow_cache
     shadow_cache.install()
@@ -104,6 +107,74 @@ def run(ctx):
             one_case(ctx, sub, r, cid, max_hist, nq, call, agree, qcache,
                      SC, S, same, snapshot, brief)
     ctx.note("cache_shadow_counts", dict(SC.COUNTS))
+
+
+class _EndCase(Exception):
+    pass
+
+
+def rejected_changes(ctx, obj, m, S):
+    """State changes that the object refuses (an exception is raised): the
+    object must then be what it was - every query is compared with a newly
+    constructed object of the unchanged model as after any other step."""
+    out = []
+
+    def add(name, fn):
+        def mut(o, mm, rr):
+            try:
+                fn(o, mm, rr)
+            except S.Skip:
+                raise
+            except Exception:  # noqa: refused, as expected
+                ctx.count("rejected_state_changes")
+                return mm
+            # accepted: the model does not know this state
+            ctx.count("illegal_change_accepted:" + name)
+            raise _EndCase()
+        out.append(("rejected:" + name, mut))
+
+    if hasattr(obj, "sp_A") and hasattr(obj, "node_weights"):
+        def bad_adj(o, mm, rr):
+            o.adjacency = np.ones((2, 3), dtype=int)
+        add("adjacency=non-square", bad_adj)
+
+        def bad_w(o, mm, rr):
+            o.node_weights = np.ones(int(o.N) + 1)
+        add("node_weights=wrong-length", bad_w)
+
+        def bad_attr(o, mm, rr):
+            if int(o.n_links) == 0 or int(o.N) < 3:
+                raise S.Skip()
+            # (over an attribute the object carries and the queries read,
+            #  so that a half-done overwrite shows)
+            if "w" not in (mm.get("attrs") or {}):
+                raise S.Skip()
+            # (a matrix with one row and column too few: fits the first
+            #  links, not those of the last node)
+            o.set_link_attribute("w", np.full((int(o.N) - 1,) * 2, 7.0))
+        add("set_link_attribute(wrong-shape)", bad_attr)
+
+        def bad_edges(o, mm, rr):
+            o.set_edge_list(np.array([[0, int(o.N) + 3]]), n_nodes=int(o.N))
+        add("set_edge_list(out-of-range)", bad_edges)
+    if hasattr(obj, "set_window") and hasattr(obj, "observable"):
+        def bad_window(o, mm, rr):
+            t = np.asarray(o._full_grid.grid()["time"], dtype=float)
+            o.set_window({"time_min": float(t.max()) + 10.0,
+                          "time_max": float(t.max()) + 20.0,
+                          "lat_min": 0.0, "lat_max": 0.0,
+                          "lon_min": 0.0, "lon_max": 0.0})
+        add("set_window(selects-nothing)", bad_window)
+    if hasattr(obj, "set_fixed_recurrence_rate") and \
+            not hasattr(obj, "x_embedded"):
+        def bad_rate(o, mm, rr):
+            o.set_fixed_recurrence_rate(1.5)
+        add("set_fixed_recurrence_rate(>1)", bad_rate)
+    if hasattr(obj, "update_resistances"):
+        def bad_res(o, mm, rr):
+            o.update_resistances(np.ones((1, 1)))
+        add("update_resistances(wrong-shape)", bad_res)
+    return out
 
 
 def is_spectral(label):
@@ -151,6 +222,7 @@ def one_case(ctx, sub, r, cid, max_hist, nq, call, agree, qcache, SC, S,
             raise S.Skip()
         return mm
     muts = list(sub.mutators()) + [("cache_clear", _clear)]
+    muts += rejected_changes(ctx, obj, m, S)
     hist = []
     L = int(r.integers(1, max_hist + 1))
     applied = []          # (mutator index, seed of its private rng)
@@ -171,6 +243,8 @@ def one_case(ctx, sub, r, cid, max_hist, nq, call, agree, qcache, SC, S,
         except S.Skip:
             ctx.count("mutator_precondition_skips")
             continue
+        except _EndCase:
+            return
         except Exception as e:  # noqa
             ctx.violation(f"{sub.name}:<mutator>:{mname}:raises:"
                           f"{type(e).__name__}",
